@@ -22,10 +22,11 @@ TTL_TICKS, TICK_S = 2, 10
 INVS = ["TypeOK", "CacheTransparent", "HitSameIdentity", "MethodBound"]
 
 
-def consts(max_req, only_legit, caps="{0, 1, 2}", fix=(True, True, True, False), methods='{"xa", "pd"}', max_clock=5, streams=2):
+def consts(max_req, only_legit, caps="{0, 1, 2}", fix=(True, True, True, False), methods='{"xa", "pd"}', max_clock=5, streams=2,
+           no_expiry=False):
     return {"Workers": Raw('{"w1", "w2"}'), "Idents": Raw('{"anon", "A"}'), "Methods": Raw(methods), "TTL": TTL_TICKS,
             "MaxClock": max_clock, "CacheCaps": Raw(caps), "MaxStreams": streams, "MaxReq": max_req, "OnlyLegit": only_legit,
-            "FixCacheExpiry": fix[0], "FixMethodBind": fix[1], "FixHitWrongCall": fix[2], "FixHitChecksCall": fix[3]}
+            "FixCacheExpiry": fix[0], "FixMethodBind": fix[1], "FixHitWrongCall": fix[2], "FixHitChecksCall": fix[3], "NoExpiry": no_expiry}
 
 
 def replay(beh, caps: dict, clock: H.Clock):
